@@ -481,7 +481,22 @@ func (e *Engine) exec(p *Path, fr *Frame, in ssa.Instruction) {
 		// deferred calls are recorded but only mutex/cleanup idioms occur in the analysed functions
 		p.note("defer %s not interpreted", core.CalleeName(&x.Call))
 	case *ssa.RunDefers, *ssa.DebugRef:
-	case *ssa.Range, *ssa.Next, *ssa.Lookup, *ssa.MapUpdate, *ssa.Select, *ssa.Send, *ssa.Go:
+	case *ssa.Send:
+		// channel used as a mutex/semaphore: no data effect
+	case *ssa.Select:
+		// the chosen case is a fresh symbolic index in [0, n)
+		a := fmt.Sprintf("select@%s", e.P.InstrPos(x))
+		w := 0
+		for (1 << uint(w)) < len(x.States) {
+			w++
+		}
+		p.DeclareAtom(a, w, 0, int64(len(x.States)-1))
+		out := &Tuple{Vs: []Value{p.SymInt(a, 64, true), &Bool{}}}
+		for range x.States {
+			out.Vs = append(out.Vs, &TopV{"select recv"})
+		}
+		fr.env[x] = out
+	case *ssa.Range, *ssa.Next, *ssa.Lookup, *ssa.MapUpdate, *ssa.Go:
 		p.abort("unsupported instruction %T in %s", in, core.QualName(fr.fn))
 	default:
 		p.abort("unsupported instruction %T in %s", in, core.QualName(fr.fn))
